@@ -326,6 +326,11 @@ func (c *Ctx) singleEdits(f Fileset) (out []struct {
 		mod := func(desc string, fn func(*Entry)) {
 			g := f.clone()
 			fn(&g[i])
+			for k := range g {
+				if k != i && g[k].Name == g[i].Name {
+					return // the edit ran into the name of another entry: not a well-formed fileset any more
+				}
+			}
 			add(fmt.Sprintf("%s of entry %q (%c)", desc, e.Name, e.Kind), i, g)
 		}
 		mod("perm bit", func(x *Entry) { x.Perms ^= 1 << uint(c.Intn(12)) })
